@@ -23,7 +23,7 @@ var commonSteps = []string{
 	"overwrite-put", "copy-onto", "copy-self-replace", "complete-mpu-onto",
 	"delete", "delete-bypass", "delete-objects", "delete-objects-bypass", "delete-objects-alias-key", "delete-bucket",
 	"put-retention-shorter", "put-retention-shorter-bypass", "put-retention-downgrade", "put-retention-downgrade-bypass",
-	"put-retention-empty", "put-retention-empty-bypass", "put-retention-extend", "put-retention-upgrade", "put-retention-extend-zone-west", "put-retention-extend-zone-east",
+	"put-retention-empty", "put-retention-empty-bypass", "put-retention-extend", "put-retention-upgrade", "put-retention-extend-zone-west", "put-retention-extend-zone-east", "put-retention-extend-zone-west-bypass", "put-retention-extend-zone-east-bypass",
 	"legal-hold-off", "legal-hold-on",
 	"put-lock-config-no-enabled", "put-lock-config-disabled", "put-lock-config-rule-only", "put-lock-config-enabled-no-rule",
 	"put-lock-config-shorter-rule", "put-lock-config-downgrade-rule", "put-lock-config-empty-body",
